@@ -69,6 +69,9 @@ class HTTPRequestParser:
     version = "1.0"
     error = None
     connection_close = False
+    # a request that is refused before its request line was cracked has no
+    # path; error handling and logging still refer to it
+    path = ""
 
     # Other attributes: first_line, header, headers, command, uri, version,
     # path, query, fragment
